@@ -74,8 +74,9 @@ func payloadMarkers(c *Ctx, pa *provAnalysis, fr *Frame) map[string]bool {
 }
 
 func checkC01(c *Ctx, r *Report) {
-	r.Rules = []string{"D1 payload dispatch matrix (prepared type x packager)", "F1 header field provenance per entry class", "F1-body entry bodies read from the source and copied verbatim", "F1-only every payload member is written for a contents entry", "F2 default mode is stat &^ umask, explicit modes verbatim", "D2 directory / owner defaults", "parents for every entry (shared with C05)"}
+	r.Rules = []string{"D1 payload dispatch matrix (prepared type x packager)", "F1 header field provenance per entry class", "F1-body entry bodies read from the source and copied verbatim", "F1-only every payload member is written for a contents entry", "F2 default mode is stat &^ umask, explicit modes verbatim", "D2 directory / owner defaults", "parents for every entry (shared with C05)", "F1-link-verbatim symlink targets are plain reads of the entry's source", "plan-W1 plan entries and their file info are fresh copies (imported from C11)", "plan-G-*/O5-parents-clean path discipline of the planner (imported from C05)"}
 	r.Explanation = "Structural necessary conditions of payload fidelity. (D1) each packager's payload writer — the function that loops over the prepared contents, branches on the entry type and writes archive headers named after destinations — is abstractly evaluated for every prepared entry type; the set of live mechanisms (directory header, link header, read of the entry's source, header written/added) is compared with the table transcribed from the statement: directories -> directory entry without reading a source (implied directories skipped in rpm only), symlinks -> link entry without reading a source, file and config types (and rpm's doc/licence/readme) -> source opened and an entry written, ghost -> header only, the deb changelog -> a generated member. (F1) for every tar header / rpm file record created for payload entries, the definitions that reach the write (flow-sensitive) must feed name from the destination, mode from the entry's mode (an explicit store over tar.FileInfoHeader's permission-only mode), owner from owner and group from group (not swapped), modification time from the entry's mtime, link target from the entry's source. (F1-body) every file opened or read under a path derived from a contents entry on the payload writer's call graph is named by the entry's source alone, and the bytes read reach an archive write, a copy into the archive or the rpm file body through conversions only (no slicing, limiting or rewriting step). (F1-only) every tar header write / rpm AddFile on the payload writer's call graph lies in the body of a loop that has loaded an element of the prepared contents, or in a function reached only from such loop bodies: the writer adds no member of its own. (F2) in the planner the mode taken from disk is stat-mode AND-NOT umask and is stored only when no mode is set. (D2) directory mode defaults to 0755 and owner/group to root. Equality of the bytes on disk at packaging time with what a later reader sees, glob results and concrete mode values are not decided."
+	r.Explanation += " (F1-link-verbatim) the target of every symlink member is a plain read of the entry's source. Imported: the plan's entries and their file info are fresh copies (C11 W1), and the planner's path discipline (C05 G-base, G-prefix, G-cutset, G-rooted, O5-parents-clean)."
 	r.Assumptions = []string{
 		"io.Copy / tar.Writer.Write / rpmpack copy the bytes they are handed",
 		"tar.FileInfoHeader(fi, link) sets ModTime from fi.ModTime(), Size from fi.Size() and Mode from fi.Mode().Perm() (hand model)",
@@ -258,6 +259,20 @@ func checkPayloadHeaders(c *Ctx, r *Report, pk *Packager, w *ssa.Function, pa *p
 		check(nameField, "Content.Destination")
 		if classes["FILE"] || classes["DIR"] {
 			check("Mode", "FileInfo.Mode")
+			// "explicit mode verbatim including setuid/setgid/sticky": no
+			// definition of the mode narrows it to the permission bits
+			okBits := true
+			whyBits := "no mode definition drops the setuid/setgid/sticky bits"
+			for _, u := range h.Uses {
+				defs, _ := h.reaching("Mode", u)
+				for _, st := range defs {
+					if w := narrowsMode(c, h.valueOf(st), 0); w != "" {
+						okBits = false
+						whyBits = fmt.Sprintf("the mode stored at %s %s: an explicit mode such as 04755 would be written as 0755", c.instrPos(st), w)
+					}
+				}
+			}
+			r.Check(okBits, "F1-mode-bits", hk+" Mode keeps the special bits", c.instrPos(h.Create), whyBits)
 			check(ownerField, "FileInfo.Owner", "FileInfo.Group")
 			check(groupField, "FileInfo.Group", "FileInfo.Owner")
 		}
@@ -698,4 +713,44 @@ func plainFieldRead(v ssa.Value, name string) bool {
 		}
 	}
 	return false
+}
+
+// narrowsMode: the expression cuts a file mode down to fewer than the twelve
+// permission+special bits (Perm(), & 0o777 ...). Returns a description, ""
+// when it does not.
+func narrowsMode(c *Ctx, v ssa.Value, d int) string {
+	if d > 8 || v == nil {
+		return ""
+	}
+	switch x := v.(type) {
+	case *ssa.Convert:
+		return narrowsMode(c, x.X, d+1)
+	case *ssa.ChangeType:
+		return narrowsMode(c, x.X, d+1)
+	case *ssa.Call:
+		if o := calleeObj(x); o != nil && o.Name() == "Perm" && o.Pkg() != nil && o.Pkg().Path() == "io/fs" {
+			return "is the result of (fs.FileMode).Perm(), which keeps the nine permission bits only"
+		}
+	case *ssa.BinOp:
+		if x.Op == token.AND {
+			for _, side := range []ssa.Value{x.X, x.Y} {
+				if k, ok := side.(*ssa.Const); ok && k.Value != nil {
+					if m := k.Int64(); m&0o7000 != 0o7000 && m >= 0 && m <= 0o7777 {
+						return fmt.Sprintf("is masked with %#o, which clears special bits", m)
+					}
+				}
+			}
+		}
+		if w := narrowsMode(c, x.X, d+1); w != "" {
+			return w
+		}
+		return narrowsMode(c, x.Y, d+1)
+	case *ssa.Phi:
+		for _, e := range x.Edges {
+			if w := narrowsMode(c, e, d+1); w != "" {
+				return w
+			}
+		}
+	}
+	return ""
 }
